@@ -55,6 +55,21 @@ def run(tier, seed, replay):
             sp = common.mk_spec(0, [cfg])
             sp["cfg"] = cfg
             bases.append(("normal-only-import:" + nm, sp))
+    # many packages (import names are numbered in hexadecimal: i9_, ia_, ... i10_ ...), each named only where the stub prints nothing
+    MANY = ["\"math\".Pi", "\"unicode/utf8\".RuneError", "\"archive/tar\".TypeReg", "\"time\".Second", "\"os\".PathSeparator", "\"net/http\".MethodGet", "\"io\".SeekStart", "\"strconv\".IntSize",
+            "\"math/bits\".UintSize", "\"compress/gzip\".BestSpeed", "\"encoding/json\".Marshal", "\"path\".Base", "\"sort\".Strings", "\"strings\".ToUpper", "\"bytes\".MinRead", "\"unicode\".MaxRune",
+            "\"math/rand\".Int", "\"path/filepath\".Separator", "\"text/tabwriter\".Debug", "\"hash/crc32\".IEEE", "\"container/list\".New", "\"encoding/hex\".EncodeToString", "\"html\".EscapeString",
+            "\"net/url\".PathEscape", "\"regexp\".QuoteMeta", "\"mime\".BEncoding", "\"log\".LstdFlags", "\"flag\".ContinueOnError", "\"errors\".ErrUnsupported", "\"io/fs\".ModeDir",
+            "\"os/signal\".Ignore", "\"sync/atomic\".AddInt64", "\"unicode/utf16\".IsSurrogate", "\"text/scanner\".EOF", "\"go/token\".NoPos"]
+    for n_many in (11, 12, 17, 27, 35):
+        for typed in (False, True):
+            svcs = {"v%02d" % i: {"value": v} for i, v in enumerate(MANY[:n_many])}
+            if typed:
+                svcs["typed"] = {"constructor": "NewA", "getter": "GetTyped", "type": "*example.com/lib.T"}
+            cfg = {"services": svcs}
+            sp = common.mk_spec(0, [cfg])
+            sp["cfg"] = cfg
+            bases.append(("many-imports:%d" % n_many, sp))
     for ty in ("\"fmt\".Stringer", "\"errors\".Unwrapper" if False else "\"os\".Signal", "*\"os\".File", "\"context\".Context", "\"reflect\".Type"):
         for params in ({}, {"p": "%env(\"X\")%"}, {"p": "%todo()%", "q": "%envInt(\"N\", 1)%"}):
             cfg = {"services": {"s": {"constructor": "NewA", "getter": "GetS", "type": ty, "must_getter": True}}}
@@ -98,6 +113,14 @@ def run(tier, seed, replay):
             dist["verdict-differs"] += 1
             key = "verdict-differs:" + (kind if kind.startswith("keyword") else "other")
             out.violation(key, "the accept/reject decision differs between normal (exit %s) and --stub (exit %s)" % (real.get("exit"), stub.get("exit")), rep)
+            if stub.get("exit") == 0 and stub.get("out_content") and (g + 1) in api_of:
+                # the stub that was written is still a stub: constraint, panic-only bodies, compiles against types only
+                b = api_of[g + 1]
+                if not b["constraints"] or "//go:build gontainerstub" not in b["constraints"]:
+                    out.violation("constraint:" + kind, "build constraint of the stub: %s" % b["constraints"], rep)
+                if not all(m["only_panic"] for m in (b["methods"] or [])) or not all(f["only_panic"] for f in b["funcs"] if f["name"] != "init"):
+                    out.violation("stub-body:" + kind, "a stub constructor/getter does something other than panic", rep)
+                stub_items.append(("c%04d" % (g + 1), stub["out_content"]))
             continue
         if real.get("exit") != 0:
             dist["both-rejected"] += 1
@@ -140,7 +163,9 @@ def run(tier, seed, replay):
     # spellings of the flag: --stub=false is the normal mode, --stub=true / =1 the stub mode (same bytes as the canonical spelling)
     if not replay:
         sps, ref = [], []
-        for g in [g for g in range(0, len(specs) - 1, 2) if obs[g].get("exit") == 0][: (12 if tier == "quick" else 120)]:
+        okg = [g for g in range(0, len(specs) - 1, 2) if obs[g].get("exit") == 0]
+        half = 6 if tier == "quick" else 60
+        for g in [g for g in okg if specs[g]["what"][0] == "random"][:half] + [g for g in okg if specs[g]["what"][0] != "random"][::max(1, len(okg) // (3 * half))][:half]:
             for extra, j in ((["--stub=false"], g), (["--stub=true"], g + 1), (["--stub=1"], g + 1), (["--stub=0"], g), (["--stub", "--stub=false"], g)):
                 sps.append(dict(specs[g], id="sp%d" % len(sps), flags={}, extra_args=extra, keep_out=True))
                 ref.append(j)
